@@ -141,7 +141,7 @@ func (e *Engine) summarize(st *State, fn *ssa.Function, args []Value, bind []Val
 	classes := map[string][]leaf{}
 	var order []string
 	for _, l := range leaves {
-		k := e.classKey(l)
+		k := e.classKey(l, baseNext)
 		if _, ok := classes[k]; !ok {
 			order = append(order, k)
 		}
@@ -184,6 +184,8 @@ func (e *Engine) summarize(st *State, fn *ssa.Function, args []Value, bind []Val
 	})
 }
 
+var shapeBase ObjID
+
 func shapeOf(v Value) string {
 	switch x := v.(type) {
 	case *Term:
@@ -191,6 +193,9 @@ func shapeOf(v Value) string {
 	case Pointer:
 		if x.obj == 0 {
 			return "nilptr"
+		}
+		if x.obj < shapeBase { // pointer to an object that existed before the summarised call: identity matters
+			return fmt.Sprintf("ptr@%d", x.obj)
 		}
 		return "ptr"
 	case Iface:
@@ -230,7 +235,8 @@ func shapeOf(v Value) string {
 	return fmt.Sprintf("%T", v)
 }
 
-func (e *Engine) classKey(l leaf) string {
+func (e *Engine) classKey(l leaf, baseNext ObjID) string {
+	shapeBase = baseNext
 	var sb strings.Builder
 	sb.WriteString(shapeOf(l.res))
 	for _, id := range l.news {
@@ -306,7 +312,27 @@ func (e *Engine) tryMerge(base *State, ls []leaf, baseNext ObjID) (m mergedState
 	return mergedState{heap, res, cond}, true
 }
 
-func (e *Engine) mergeObjects(ls []leaf, remaps []map[ObjID]ObjID, get func(leaf) *Object) *Object {
+func (e *Engine) mergeObjects(ls []leaf, remaps []map[ObjID]ObjID, get0 func(leaf) *Object) *Object {
+	// a lazily created global may be missing from the leaves that never touched it: there it is zero
+	var tmpl *Object
+	for _, l := range ls {
+		if o := get0(l); o != nil {
+			tmpl = o
+			break
+		}
+	}
+	if tmpl == nil {
+		panic(mergeFail{"object missing in every leaf"})
+	}
+	get := func(l leaf) *Object {
+		if o := get0(l); o != nil {
+			return o
+		}
+		if tmpl.arr != nil || tmpl.isMap {
+			panic(mergeFail{"object missing in a leaf"})
+		}
+		return newObjFor(tmpl.typ)
+	}
 	first := get(ls[0])
 	out := first.clone()
 	for _, l := range ls[1:] {
